@@ -3,7 +3,8 @@
 cargo decides freshness by source mtimes and names artifacts by package id; two copies of the same package built into one
 target directory would silently reuse (or overwrite) each other's artifacts.  Every scratch copy therefore gets a unique
 PACKAGE name (the library keeps its name `sqlgrep`, so `use sqlgrep::...` is unchanged); only the dependencies - whose
-artifacts do not depend on the tree under test - are shared.  The artifacts of the unique package are deleted afterwards."""
+artifacts do not depend on the tree under test - are shared.  The artifacts of the unique package are deleted afterwards.
+The copy's Cargo.toml differs from /repo's in exactly two lines: the package name and `crate-type = ["rlib"]` (no cdylib)."""
 import glob
 import os
 import re
@@ -25,6 +26,9 @@ def make(repo, dst, tests_dir=False):
         if os.path.exists(p):
             t = open(p).read()
             t2 = re.sub(r'^name = "sqlgrep"$', 'name = "%s"' % unique, t, count=1, flags=re.M)
+            # a cdylib/rlib library is written to deps/ WITHOUT a hash in its file name (deps/libsqlgrep.rlib), i.e. every copy
+            # of the crate would write the same file: build the copy as a plain rlib, whose artifact carries the package hash
+            t2 = re.sub(r'^crate-type = \["rlib", "cdylib"\]$', 'crate-type = ["rlib"]', t2, flags=re.M)
             open(p, 'w').write(t2)
     os.makedirs(os.path.join(dst, '.cargo'), exist_ok=True)
     with open(os.path.join(dst, '.cargo', 'config.toml'), 'w') as f:
@@ -66,11 +70,13 @@ def build_test(crate, unique, cargo_args, timeout=1500):
         except ValueError:
             continue
         if m.get('reason') == 'compiler-artifact' and unique in m.get('package_id', ''):
-            files += m.get('filenames', [])
+            # only the hashed artifacts under deps/ (and files carrying the unique name): the uplifted copies
+            # target/debug/libsqlgrep.rlib / .so have one name for every copy of the crate and may be in use by a concurrent build
+            files += [f for f in m.get('filenames', []) if os.sep + 'deps' + os.sep in f or unique in os.path.basename(f)]
             if m.get('executable') and m.get('profile', {}).get('test'):
                 exe = m['executable']
         elif m.get('reason') == 'compiler-message' and m.get('message', {}).get('level') == 'error':
-            rendered.append(m['message'].get('rendered', '')[:600])
+            rendered.append(m['message'].get('rendered', '')[:600] + ' ... ' + m['message'].get('rendered', '')[-900:])
     log = '\n'.join(rendered) + '\n' + p.stderr[-1500:]
     return exe, files, log
 
